@@ -56,6 +56,16 @@ for mod, tree in trees:
         if (short.startswith('_') and not short.startswith('__')) or '<locals>' in q:
             params[q] = canon._param_names(node)
 out['__params__'] = params
+unread = {}
+for mod, tree in trees:
+    for q, node in canon._functions(tree, mod):
+        a = node.args
+        ps = [x.arg for x in a.posonlyargs + a.args + a.kwonlyargs] + ([a.vararg.arg] if a.vararg else []) + ([a.kwarg.arg] if a.kwarg else [])
+        reads = {x.id for x in ast.walk(node) if isinstance(x, ast.Name) and isinstance(x.ctx, ast.Load)}
+        u = [p_ for p_ in ps if p_ not in reads and p_ not in ('self', 'cls')]
+        if u:
+            unread[q] = u
+out['__unread_params__'] = unread
 out['__signatures__'] = sigs
 out['__callshapes__'] = shapes
 out['__functions__'] = sorted(allfuncs)
